@@ -8,6 +8,13 @@ CONSTANTS
   CheckValueDepth = TRUE
   LeftEdgeChecked = TRUE
   MBTLen = 40
+  SweepMax = 5
+  BuildLen = 5
+  SweepOnly = FALSE
+  DirtyOnUnset = {"above", "fork", "below"}
+  UnsetBoundaryLeaves = TRUE
+  CopyOnResolve = TRUE
+  RehashResolved = TRUE
 INIT MBTInit
 NEXT MBTNext
 CHECK_DEADLOCK FALSE
